@@ -50,21 +50,22 @@ import (
 
 // Config is one line of configs.ndjson (MemDispatch!DescribeCf).
 type Config struct {
-	Fn       string   `json:"fn"`
-	Alg      string   `json:"alg"`
-	Len      int      `json:"len"`
-	Path     string   `json:"path"`
-	SV       int      `json:"sv"`
-	Args     []string `json:"args"`
-	Spares   []int    `json:"spares"`
-	Fam      string   `json:"fam"`
-	GKeyBits int      `json:"gKeyBits"`
-	GNonce   int      `json:"gNonce"`
-	GTag     int      `json:"gTag"`
-	Hash     int      `json:"hash"`
-	Keep     int      `json:"keep"`  // "results stay the caller's" configurations: results of Keep earlier calls are retained (0: not one)
-	Chain    string   `json:"chain"` // argument of the last call that IS the previous call's result ("none")
-	Conc     int      `json:"conc"`  // goroutines doing this at once
+	Fn        string   `json:"fn"`
+	Alg       string   `json:"alg"`
+	Len       int      `json:"len"`
+	Path      string   `json:"path"`
+	SV        int      `json:"sv"`
+	Args      []string `json:"args"`
+	Spares    []int    `json:"spares"`
+	Fam       string   `json:"fam"`
+	GKeyBits  int      `json:"gKeyBits"`
+	GNonce    int      `json:"gNonce"`
+	GTag      int      `json:"gTag"`
+	Hash      int      `json:"hash"`
+	Keep      int      `json:"keep"`      // "results stay the caller's" configurations: results of Keep earlier calls are retained (0: not one)
+	Chain     string   `json:"chain"`     // argument of the last call that IS the previous call's result ("none")
+	Conc      int      `json:"conc"`      // goroutines doing this at once
+	DstNeeded int      `json:"dstNeeded"` // aescbcaead: bytes behind dst the result may occupy
 }
 
 type obs struct {
@@ -72,6 +73,8 @@ type obs struct {
 	Written [][]string // [argument, "len"|"spare"]
 	Outside bool
 	Detail  string
+
+	recheck func() ([][]string, bool) // the same comparison again, later (after garbage collections)
 }
 
 // ---------------------------------------------------------------------------
@@ -82,6 +85,7 @@ const guard = 32
 type region struct {
 	name           string
 	off, ln, spare int
+	used           int // how much of the spare capacity a result may occupy (dst of an AEAD; otherwise all of it)
 }
 
 type arena struct {
@@ -92,7 +96,7 @@ type arena struct {
 func canary(i int) byte { return byte(0xC3 ^ (i * 37) ^ (i >> 5)) }
 
 // newArena lays out guard | arg1 | spare1 | guard | arg2 | spare2 | ... | guard.
-func newArena(names []string, data [][]byte, spares []int) *arena {
+func newArena(names []string, data [][]byte, spares []int, dstNeeded int) *arena {
 	a := &arena{}
 	total := guard
 	for j := range names {
@@ -105,7 +109,11 @@ func newArena(names []string, data [][]byte, spares []int) *arena {
 	off := guard
 	for j, n := range names {
 		copy(a.buf[off:], data[j])
-		a.regs = append(a.regs, region{n, off, len(data[j]), spares[j]})
+		used := spares[j]
+		if n == "dst" && dstNeeded < used {
+			used = dstNeeded
+		}
+		a.regs = append(a.regs, region{n, off, len(data[j]), spares[j], used})
 		off += len(data[j]) + spares[j] + guard
 	}
 	a.snap = append([]byte{}, a.buf...)
@@ -131,8 +139,11 @@ func (a *arena) diff() (written [][]string, outside bool) {
 		if !bytes.Equal(a.buf[r.off:r.off+r.ln], a.snap[r.off:r.off+r.ln]) {
 			written = append(written, []string{r.name, "len"})
 		}
-		if !bytes.Equal(a.buf[r.off+r.ln:r.off+r.ln+r.spare], a.snap[r.off+r.ln:r.off+r.ln+r.spare]) {
+		if !bytes.Equal(a.buf[r.off+r.ln:r.off+r.ln+r.used], a.snap[r.off+r.ln:r.off+r.ln+r.used]) {
 			written = append(written, []string{r.name, "spare"})
+		}
+		if !bytes.Equal(a.buf[r.off+r.ln+r.used:r.off+r.ln+r.spare], a.snap[r.off+r.ln+r.used:r.off+r.ln+r.spare]) {
+			written = append(written, []string{r.name, "beyond"})
 		}
 	}
 	for i := range a.buf {
@@ -541,13 +552,14 @@ func perform(cf Config, seed int64) (o obs) {
 	for j, n := range cf.Args {
 		d[j] = pr.data[n]
 	}
-	a = newArena(cf.Args, d, cf.Spares)
+	a = newArena(cf.Args, d, cf.Spares, cf.DstNeeded)
 	_, err := pr.invoke(a.arg)
 	o.Outcome = classify(err)
 	if err != nil {
 		o.Detail = err.Error()
 	}
 	o.Written, o.Outside = a.diff()
+	o.recheck = a.diff
 	return o
 }
 
@@ -564,6 +576,12 @@ func exact(b []byte) []byte {
 // result of the previous call IS that argument.  After every call all retained
 // results (and the chained argument) are compared with their snapshots.
 func performRet(cf Config, seed int64) (o obs) {
+	type pair struct {
+		name       string
+		live, snap []byte
+	}
+	var keepMu sync.Mutex
+	var kept []pair // every argument and every retained result of the run, for the late re-check
 	type wout struct {
 		written map[string]bool
 		outcome string
@@ -641,11 +659,14 @@ func performRet(cf Config, seed int64) (o obs) {
 						wo.detail = err.Error()
 					}
 				}
+				keepMu.Lock()
 				for n, d := range args {
 					if !bytes.Equal(d, snaps[n]) {
 						wo.written[n+".len"] = true
 					}
+					kept = append(kept, pair{n + ".len", d, snaps[n]})
 				}
+				keepMu.Unlock()
 				check()
 				if err == nil {
 					hold(rs)
@@ -655,6 +676,11 @@ func performRet(cf Config, seed int64) (o obs) {
 				}
 			}
 			check()
+			keepMu.Lock()
+			for _, h := range ring {
+				kept = append(kept, pair{"result.len", h.live, h.snap})
+			}
+			keepMu.Unlock()
 		}()
 	}
 	close(start)
@@ -675,6 +701,18 @@ func performRet(cf Config, seed int64) (o obs) {
 		}
 	}
 	sort.Slice(o.Written, func(i, j int) bool { return o.Written[i][0]+o.Written[i][1] < o.Written[j][0]+o.Written[j][1] })
+	o.recheck = func() ([][]string, bool) {
+		var w [][]string
+		did := map[string]bool{}
+		for _, p := range kept {
+			if !bytes.Equal(p.live, p.snap) && !did[p.name] {
+				did[p.name] = true
+				a, r, _ := strings.Cut(p.name, ".")
+				w = append(w, []string{a, r})
+			}
+		}
+		return w, false
+	}
 	return o
 }
 
@@ -780,6 +818,9 @@ func findingKey(cf Config, why string) string {
 	if reg == "len" {
 		return "write:" + h + ":" + arg + "[in-length]"
 	}
+	if reg == "beyond" {
+		return "write:" + h + ":" + arg + "[beyond-result]"
+	}
 	return "write:" + h + ":" + arg
 }
 
@@ -830,8 +871,8 @@ func TestCheck(t *testing.T) {
 	}
 
 	mcCfg := ev.Pick("MCmem_small.cfg", "MCmem_big.cfg")
-	defCh := make(chan [2]string, 3)
-	for _, d := range []string{"pad", "append", "pool"} {
+	defCh := make(chan [2]string, 4)
+	for _, d := range []string{"pad", "append", "pool", "finalizer"} {
 		go func() {
 			r := tlc.Run(tlc.Opts{Dir: "CryptoDispatch", Module: "MemModel", Config: "MCmem_defect_" + d + ".cfg", Workers: 2,
 				Timeout: 5 * time.Minute, Args: []string{"-noGenerateSpecTE"}})
@@ -880,6 +921,8 @@ func TestCheck(t *testing.T) {
 	}
 	close(next)
 	wg.Wait()
+	late := lateRecheck(res)
+	e.Set("late_writes_seen_after_gc", int64(late))
 	b := &tv.Batch{}
 	outcomes := map[string]int64{}
 	notReached := map[string]int64{}
@@ -935,7 +978,7 @@ func TestCheck(t *testing.T) {
 		e.Inconclusive(s)
 	}
 	rejected := map[string]string{}
-	for i := 0; i < 3; i++ {
+	for i := 0; i < 4; i++ {
 		d := <-defCh
 		rejected[d[0]] = d[1]
 		if d[1] != "rejected" {
@@ -943,6 +986,38 @@ func TestCheck(t *testing.T) {
 		}
 	}
 	e.Set("defect_models", rejected)
+}
+
+// lateRecheck: a finalizer (or any deferred clean-up) of an object a call created may touch the caller's buffers
+// after the call returned.  Collect twice, give finalizers time to run, and compare everything again; what differs
+// only now is added to the observation of its configuration.
+func lateRecheck(res []obs) int {
+	late := 0
+	for round := 0; round < 2; round++ {
+		runtime.GC()
+		time.Sleep(60 * time.Millisecond)
+	}
+	runtime.GC()
+	for i := range res {
+		if res[i].recheck == nil {
+			continue
+		}
+		w, outside := res[i].recheck()
+		have := map[string]bool{}
+		for _, x := range res[i].Written {
+			have[x[0]+"."+x[1]] = true
+		}
+		for _, x := range w {
+			if !have[x[0]+"."+x[1]] {
+				res[i].Written = append(res[i].Written, x)
+				res[i].Detail += " [" + x[0] + "." + x[1] + " changed only after the call had returned: seen at the re-check after garbage collection]"
+				late++
+			}
+		}
+		res[i].Outside = res[i].Outside || outside
+		res[i].recheck = nil
+	}
+	return late
 }
 
 func report(e *ev.Evidence, cfs []Config, res []obs, rej []tv.Reject) {
@@ -1072,7 +1147,12 @@ func replay(t *testing.T, e *ev.Evidence, path string, seed int64) {
 		o := perform(r.Config, seed)
 		cfs, res = append(cfs, r.Config), append(res, o)
 		b.Start(line(r.Config, o))
-		fmt.Printf("replay %+v -> %+v\n", r.Config, o)
+	}
+	lateRecheck(res)
+	b = &tv.Batch{}
+	for i := range cfs {
+		b.Start(line(cfs[i], res[i]))
+		fmt.Printf("replay %+v -> %v %v %s\n", cfs[i], res[i].Written, res[i].Outcome, res[i].Detail)
 	}
 	rej, vres := tv.Validate(tlc.Opts{Dir: "CryptoDispatch", Module: "TraceMem", Config: ev.Pick("Trace_small.cfg", "Trace_big.cfg"), Workers: 2, Timeout: 3 * time.Minute}, b)
 	if !vres.OK && !vres.Violation {
